@@ -4,6 +4,7 @@ package c05
 import (
 	"bytes"
 	"fmt"
+	"strings"
 	"testing"
 
 	"github.com/ossrs/go-oryx-lib/amf0"
@@ -73,11 +74,26 @@ func checkTree(m *mon.M, tr *refamf0.Value, i int) {
 		if l.Size() != len(b) {
 			m.Violationf("c05:size-ne-marshal-len"+suffix, rep, "Size()=%d but marshalled %d bytes", l.Size(), len(b))
 		}
-		l2, err := decodeLib(b)
+		// the bytes belong to the caller: marshalling another value afterwards must not change them (a pooled or
+		// retained encode buffer would)
+		saved := append([]byte(nil), b...)
+		poison(i, len(b))
+		if !bytes.Equal(b, saved) {
+			m.Violationf("c05:marshalled-bytes-changed-by-a-later-marshal"+suffix, rep, "the %d bytes MarshalBinary returned changed when another value was marshalled afterwards", len(saved))
+			b = saved
+		}
+		// decoded from a buffer of the caller's that is reused afterwards (a read buffer): an AMF0 value holds strings and
+		// numbers, no byte slices, so nothing in it may change when the buffer does
+		in := append([]byte(nil), b...)
+		l2, err := decodeLib(in)
 		if err != nil {
 			m.Violationf("c05:own-bytes-rejected"+suffix, rep, "unmarshal of own bytes failed: %v", err)
 			return
 		}
+		for k := range in {
+			in[k] = 0xEE
+		}
+		poison(i+1, len(b)) // likewise the decoded value must not depend on what is encoded/decoded next
 		if l2.Size() != len(b) {
 			m.Violationf("c05:decoded-size-ne-len"+suffix, rep, "decoded Size()=%d, bytes=%d", l2.Size(), len(b))
 		}
@@ -102,6 +118,31 @@ func checkTree(m *mon.M, tr *refamf0.Value, i int) {
 			m.Violationf("c05:get-differs"+suffix, rep, "decoded value differs at %s", why)
 		}
 	})
+}
+
+// poison marshals and decodes an unrelated value of about n bytes (object / ECMA array / strict array / string by k).
+func poison(k, n int) {
+	fill := amf0.NewString(strings.Repeat("\xEE", n%60000+1))
+	var v amf0.Amf0
+	switch k % 4 {
+	case 0:
+		o := amf0.NewObject()
+		o.Set("poison", fill)
+		v = o
+	case 1:
+		o := amf0.NewEcmaArray()
+		o.Set("poison", fill)
+		v = o
+	case 2:
+		o := amf0.NewStrictArray()
+		o.Set("0", fill)
+		v = o
+	default:
+		v = fill
+	}
+	if b, err := v.MarshalBinary(); err == nil {
+		decodeLib(b)
+	}
 }
 
 func containsNaN(v *refamf0.Value) bool {
